@@ -8,6 +8,7 @@ import math
 import os
 
 from ..common import hexs, unhexs
+from .. import common
 from .. import grogen as G
 
 RULE = ("session: optional setters (title 0-80 printable chars, 35% of the valid sessions' titles with non-ASCII "
@@ -279,7 +280,8 @@ def _eval_session(ctx, case):
         ctx.count("title-nonascii:" + ("count-declared" if declared else "count-backfilled"))
         ctx.count("title-nonascii-extra-bytes", len(G.text_bytes(title)) - len(title))
     ctx.count("size-le6" if len(recs) <= 6 else "size-le40" if len(recs) <= 40 else "size-le300")
-    path = os.path.join(ctx.scratch, f"c13-{ctx.evaluations}.gro")
+    path = os.path.join(ctx.scratch, f"c13-{ctx.evaluations % 3}.gro")   # path strings reused on purpose
+    common.decoy(path, "gro")
     errs, data, _ = G.run_session(path, ops)
     back = G.read_back(path)
     os.unlink(path)
